@@ -48,6 +48,9 @@ pub struct Script {
     /// building the decoders with index >= .0 takes .1 milliseconds (the engine builds them one after the other on
     /// the collecting thread, so the workers already running get far ahead of the collector)
     pub slow_build: Option<(usize, u64)>,
+    /// probability that a frame reports 0 iterations instead of its unique code (only where frames are not
+    /// identified through their codes: the front-end run on one worker)
+    pub zero_iter: f64,
 }
 
 pub struct Shared {
@@ -187,7 +190,8 @@ impl LdpcDecoder for ScriptDecoder {
         };
         sh.log.lock().unwrap().push(rec);
         sh.in_decode.fetch_sub(1, Ordering::SeqCst);
-        let out = DecoderOutput { codeword: word, iterations: code as usize };
+        let iterations = if sh.script.zero_iter > 0.0 && Rng::keyed(sh.script.seed, "C13", "zero-iter", u).chance(sh.script.zero_iter) { 0 } else { code as usize };
+        let out = DecoderOutput { codeword: word, iterations };
         if success { Ok(out) } else { Err(out) }
     }
 }
@@ -207,6 +211,8 @@ pub struct Params {
     pub psk8: bool,
     pub kind: &'static str,
     pub h: Mat,
+    /// interval of the Reporter (0 = one snapshot per consumed frame)
+    pub report_interval_ms: u64,
 }
 
 fn params_json(p: &Params) -> J {
@@ -288,7 +294,7 @@ pub fn run_scenario(p: &Params) -> Outcome {
         stall_deadline_ns: AtomicU64::new(0),
     });
     let (rtx, rrx) = mpsc::channel::<Report>();
-    let reporter = Reporter { tx: rtx, interval: Duration::ZERO };
+    let reporter = Reporter { tx: rtx, interval: Duration::from_millis(p.report_interval_ms) };
     let orig = get_affinity();
     let want: Vec<usize> = orig.iter().cloned().take(p.workers.max(1)).collect();
     let aff_ok = !cfg!(miri) && want.len() == p.workers && set_affinity(&want);
@@ -776,6 +782,7 @@ fn base_script(rng: &mut Rng, k: usize) -> Script {
         panic_all: false,
         stall: None,
         slow_build: None,
+        zero_iter: 0.0,
     }
 }
 
@@ -908,6 +915,9 @@ pub fn cli_ber_one(run: &mut Run) {
         script.p_err = 1.0;
         script.max_e = 3.min(k);
         script.delays = false;
+        // a third of the frames claims zero iterations (success or failure alike, always with wrong bits)
+        script.zero_iter = 0.33;
+        script.p_success_given_err = 0.5;
         let t = rng.range(1, 2) as u64;
         let target = rng.range(3, 12) as u64;
         let sh = Arc::new(Shared {
@@ -1012,7 +1022,7 @@ pub fn run(run: &mut Run) {
         cli_ber_one(run);
         return;
     }
-    run.rule = "the real BerTest engine driven through the public DecoderFactory with a scripted decoder (unique 44-bit iteration code per frame, scripted bit errors on the systematic part, success flag, heavy-tailed delays before returning) at Eb/N0 = 60 dB and a zero-interval Reporter; offline checker: successive report differences identify the consumed frames through their unique codes (multi-frame steps resolved by search over the workers' next unconsumed frames); required: no invention, no duplication, per-worker FIFO, every counter = sum over the consumed set (frames, systematic bit errors, frame errors, false decodes, total and correct-frame iterations, outer-code threshold accounting), ratios = stated ratios, stop exactly at the error target by a frame that incremented it, returned vector = last report of each point in order, exactly one 'finished' at the end, all decoders dropped and no decode begun after run() returned; worker count 1..16 through sched_setaffinity around BerTest::new in three modes (restored / W cpus / one cpu); failure injection: puncturing not dividing n, interleaver columns or 8PSK not fitting (stage panics in every worker), decoder panics in some / all workers; all workers stalling simultaneously for 6.5 s (2.5 .. 35 s in thorough) in the middle of a point; the last decoders taking 20..150 ms to build while the first workers already deliver thousands of instant frames (workers far ahead of the collector); non-trivial = a run with >= 2 workers whose consumption order is not sorted by worker id (distinct by digest of the consumed worker-id sequence), and every failure-injection scenario".into();
+    run.rule = "the real BerTest engine driven through the public DecoderFactory with a scripted decoder (unique 44-bit iteration code per frame, scripted bit errors on the systematic part, success flag, heavy-tailed delays before returning) at Eb/N0 = 60 dB and a zero-interval Reporter; offline checker: successive report differences identify the consumed frames through their unique codes (multi-frame steps resolved by search over the workers' next unconsumed frames); required: no invention, no duplication, per-worker FIFO, every counter = sum over the consumed set (frames, systematic bit errors, frame errors, false decodes, total and correct-frame iterations, outer-code threshold accounting), ratios = stated ratios, stop exactly at the error target by a frame that incremented it, returned vector = last report of each point in order, exactly one 'finished' at the end, all decoders dropped and no decode begun after run() returned; worker count 1..16 through sched_setaffinity around BerTest::new in three modes (restored / W cpus / one cpu); failure injection: puncturing not dividing n, interleaver columns or 8PSK not fitting (stage panics in every worker), decoder panics in some / all workers; all workers stalling simultaneously for 6.5 s (2.5 .. 35 s in thorough) in the middle of a point; the last decoders taking 20..150 ms to build while the first workers already deliver thousands of instant frames (workers far ahead of the collector); runs with a one-hour Reporter interval (every point still gets its final statistics, equal to the returned ones, also when consecutive points end after the same number of frames); non-trivial = a run with >= 2 workers whose consumption order is not sorted by worker id (distinct by digest of the consumed worker-id sequence), and every failure-injection scenario".into();
     run.assumptions = vec![
         "a propagated panic out of run() counts as terminated in the partial-failure scenario (decoder panics in some workers)".into(),
         "wall-clock watchdog of 60 s per scenario only bounds how long we look; scenarios take milliseconds".into(),
@@ -1042,6 +1052,7 @@ pub fn run(run: &mut Run) {
             puncture: if rng.chance(0.3) && h.cols % 4 == 0 { Some(vec![true, true, true, false]) } else { None },
             interleave: None,
             psk8: false,
+            report_interval_ms: 0,
             kind: "normal",
             h,
         };
@@ -1081,6 +1092,7 @@ pub fn run(run: &mut Run) {
                 puncture: None,
                 interleave: None,
                 psk8: false,
+                report_interval_ms: 0,
                 kind: "normal (contended)",
                 h,
             };
@@ -1113,6 +1125,7 @@ pub fn run(run: &mut Run) {
                 puncture: None,
                 interleave: None,
                 psk8: false,
+                report_interval_ms: 0,
                 kind: "normal (all workers stall for seconds)",
                 h,
             };
@@ -1149,6 +1162,7 @@ pub fn run(run: &mut Run) {
                 puncture: None,
                 interleave: None,
                 psk8: false,
+                report_interval_ms: 0,
                 kind: "normal (workers thousands of frames ahead of the collector)",
                 h,
             };
@@ -1157,6 +1171,96 @@ pub fn run(run: &mut Run) {
             let mut d = Dig::new();
             d.s("far-ahead").u(idx);
             l.nt(d.get());
+        });
+    }
+    // sparse reports: a Reporter with a long interval only hears about a point when it ends; every point must
+    // still get its final statistics (also when consecutive points end after the same number of frames), in order,
+    // equal to what run() returns, and 'finished' comes last
+    {
+        let nsp = if miri { 1 } else { run.tier.n(24, 400) };
+        run.sub_seq("sparse-reports", nsp, move |l, idx, rng| {
+            if HUNG.load(Ordering::SeqCst) {
+                return;
+            }
+            let h = small_h(rng);
+            let k = h.cols - h.rows;
+            let mut script = base_script(rng, k);
+            // every frame is an error frame in two cases out of three: all points then end after exactly `target` frames
+            script.p_err = if idx % 3 == 2 { 0.5 } else { 1.0 };
+            script.delays = idx % 2 == 0;
+            let npoints = rng.range(2, 4);
+            let p = Params {
+                workers: if cfg!(miri) { 2 } else { 1 + rng.below(6) },
+                affinity_mode: 0,
+                target: rng.range(1, 6) as u64,
+                bch: 0,
+                ebn0s: (0..npoints).map(|i| 60.0 + i as f32).collect(),
+                script,
+                puncture: None,
+                interleave: None,
+                psk8: false,
+                report_interval_ms: 3_600_000,
+                kind: "normal (reporter interval of one hour)",
+                h,
+            };
+            let o = run_scenario(&p);
+            l.eval();
+            let pj = || params_json(&p).set("reports", o.reports.len());
+            if o.result.is_none() && o.panicked.is_none() {
+                l.violation(format!("BerTest::run did not return ({}): the run hangs", p.kind), pj());
+                HUNG.store(true, Ordering::SeqCst);
+                return;
+            }
+            let stats = match (&o.result, &o.panicked) {
+                (Some(Ok(s)), None) => s.clone(),
+                _ => {
+                    l.violation("BER run fails or panics for a valid configuration (reporter interval of one hour)", pj().set("result", format!("{:?}", o.result.as_ref().map(|r| r.as_ref().map(|_| ()))).chars().take(200).collect::<String>()));
+                    return;
+                }
+            };
+            // last Statistics report seen for each point, in order of arrival
+            let mut last: Vec<Option<Statistics>> = vec![None; p.ebn0s.len()];
+            let mut order_ok = true;
+            let mut cur = 0usize;
+            let mut finished_at: Vec<usize> = Vec::new();
+            for (i, r) in o.reports.iter().enumerate() {
+                match r {
+                    Report::Statistics(st) => match p.ebn0s.iter().position(|&e| e == st.ebn0_db) {
+                        Some(ix) => {
+                            if ix < cur {
+                                order_ok = false;
+                            }
+                            cur = ix;
+                            last[ix] = Some(st.clone());
+                        }
+                        None => order_ok = false,
+                    },
+                    Report::Finished => finished_at.push(i),
+                }
+            }
+            let key = |s: &Statistics| (s.num_frames, s.ldpc.bit_errors, s.ldpc.frame_errors, s.false_decodes, s.total_iterations);
+            if stats.len() != p.ebn0s.len() {
+                l.violation("run() does not return one statistics record per Eb/N0", pj().set("returned", stats.len()));
+            } else if let Some(ix) = (0..last.len()).find(|&ix| last[ix].is_none()) {
+                l.violation(
+                    "no statistics were reported for an Eb/N0 point (reporter with a long interval)",
+                    pj().set("point_without_report", ix).set("frames_of_each_point", stats.iter().map(|s| s.num_frames).collect::<Vec<_>>()),
+                );
+            } else if let Some(ix) = (0..last.len()).find(|&ix| key(last[ix].as_ref().unwrap()) != key(&stats[ix])) {
+                l.violation("the last report of a point is not the statistics run() returns for it (reporter with a long interval)", pj().set("point", ix));
+            } else if !order_ok {
+                l.violation("reports of different Eb/N0 points arrive out of order (reporter with a long interval)", pj());
+            } else if finished_at != vec![o.reports.len() - 1] {
+                l.violation("'finished' is not delivered exactly once, after the last statistics (reporter with a long interval)", pj().set("finished_at", finished_at.iter().map(|&x| x as u64).collect::<Vec<_>>()));
+            } else {
+                l.count("runs_with_sparse_reports");
+                if stats.windows(2).any(|w| w[0].num_frames == w[1].num_frames) {
+                    l.count("runs_with_consecutive_points_of_equal_length");
+                }
+                let mut d = Dig::new();
+                d.s("sparse").u(idx).u(p.script.seed);
+                l.nt(d.get());
+            }
         });
     }
     let nf = if miri { 2 } else { run.tier.n(96, 1600) };
@@ -1179,6 +1283,7 @@ pub fn run(run: &mut Run) {
             puncture: None,
             interleave: None,
             psk8: false,
+            report_interval_ms: 0,
             kind: "fault",
             h: h.clone(),
         };
